@@ -1080,6 +1080,24 @@ class Program:
             cache[path] = desugar_option_calls(self, desugar_adaptors(self, inline_closure_calls(self, f)))
         return cache[path]
 
+    def fn_threaded(self, path):
+        """fn_loops(path) with jump threading applied in any case: a flag set to a constant on each exit of a scan and tested
+        afterwards (`let ok = loop { .. break true .. break false }; if ok { .. }`) becomes the direct edges."""
+        cache = self.__dict__.setdefault("_threaded", {})
+        if path not in cache:
+            f = self.fn_loops(path)
+            blocks = [_copy.copy(b) for b in f.blocks]
+            _thread_jumps(blocks)
+            d = {k: v for k, v in f.d.items() if k not in ("blocks",)}
+            d["blocks"] = blocks
+            d["locals"] = list(f.locals)
+            d["arg_count"] = f.nargs
+            nf = Fn(self, f.path, d)
+            nf.desugared = list(getattr(f, "desugared", []) or [])
+            nf.inlined = list(getattr(f, "inlined", []) or [])
+            cache[path] = nf
+        return cache[path]
+
     def fn_closure_calls(self, path):
         """fn(path) with direct calls of closure literals built in it (`let f = |x| ..; f(a)`) spliced in: a local
         closure called by name is a local helper function."""
